@@ -22,6 +22,38 @@ class Abs:
         self.popped = {}
         self.ncoros = NCOROS
         self.outside = False              # the history left the quantifier of C06 (see `own handle`)
+        self.rep = {}                     # generator only: slot -> [heap?, capacity], to aim fault plans at growth positions
+
+    # ---- generator-side prediction of where add() allocates (never used for a verdict: the oracle goes by the
+    # implementation's own `threw` / `ok`)
+    def _needs_alloc(self, i, n):
+        heap, cap = self.rep.get(i, [False, 0])
+        return n == cap if heap else n >= 3
+
+    def _grow(self, i, n):
+        heap, cap = self.rep.get(i, [False, 0])
+        self.rep[i] = [True, cap * 2] if heap else [True, 6]
+
+    def _note_add(self, i, n):
+        """one add() to slot i that holds n handles"""
+        if self._needs_alloc(i, n):
+            self._grow(i, n)
+
+    def predict_merge_throws(self, i, j, k):
+        """would `mrgf i j k` throw (k-th allocation of the merge fails)? (generator only)"""
+        n = len(self.slots[i]["h"])
+        rep = list(self.rep.get(i, [False, 0]))
+        try:
+            for _ in self.slots[j]["h"]:
+                if self._needs_alloc(i, n):
+                    if k == 0:
+                        return True
+                    k -= 1
+                    self._grow(i, n)
+                n += 1
+            return False
+        finally:
+            self.rep[i] = rep
 
     def live(self, i):
         return 0 <= i < len(self.slots) and self.slots[i] is not None
@@ -46,10 +78,24 @@ class Abs:
     def me_ok(self, me):
         return me == DRIVER_ID if self.mode == "c" else me >= self.ncoros
 
-    def apply(self, w, popped=None):
-        """returns (valid, handles that must be resumed during this operation)"""
+    def apply(self, w, popped=None, head=None):
+        """returns (valid, handles that must be resumed during this operation); `head` = first words of the implementation's
+        output line (the oracle passes it: whether an operation under a fault plan threw is the implementation's business)"""
         op = w[0]
+        if op in ("call", "callx"):
+            return self.apply_call(w)
         a = [int(x) for x in w[1:]]
+        if op in ("addhf", "mrgf", "asgf"):
+            return self.apply_fault(op, a, head)
+        if op == "cspx":
+            # create_suspend_point(fn), fn readies the coroutines and throws: no suspend point, the coroutines are owed
+            if any(not (0 <= h < NCOROS) for h in a): return False, []
+            for h in a:
+                self.give(h)
+            return True, self.consume(a)
+        if op == "act":
+            return True, []
+        self.track_rep(op, a)
         # a suspend point destroyed / discarded *during stack unwinding* owes its coroutines exactly the same
         if op == "delx": op = "del"
         if op == "clearx": op = "clear"
@@ -194,6 +240,102 @@ class Abs:
         return True, []
 
 
+def _abs_track_rep(self, op, a):
+    """generator-side bookkeeping of the storage kind / capacity (see `rep`)"""
+    S = self.slots
+    try:
+        if op in ("ctor", "ctorh", "ctorv", "ctorhv", "ctorself"):
+            if self.vacant(a[0]): self.rep[a[0]] = [False, 0]
+        elif op in ("ctorsv", "mov", "movb"):
+            if self.vacant(a[0]) and self.live(a[1]):
+                self.rep[a[0]] = self.rep.get(a[1], [False, 0])
+                self.rep[a[1]] = [False, 0]
+        elif op in ("mrg", "asg"):
+            i, j = a[0], a[1]
+            if self.live(i) and self.live(j) and i != j and not (op == "asg" and S[i]["typed"] and not S[j]["typed"]):
+                n = len(S[i]["h"])
+                for _ in S[j]["h"]:
+                    self._note_add(i, n)
+                    n += 1
+                self.rep[j] = [False, 0]
+        elif op in ("addh", "addme"):
+            if self.live(a[0]): self._note_add(a[0], len(S[a[0]]["h"]))
+        elif op in ("csp", "cspv"):
+            if self.vacant(a[0]):
+                self.rep[a[0]] = [False, 0]
+                for n in range(len(a) - (1 if op == "csp" else 2)):
+                    self._note_add(a[0], n)
+        elif op in ("clear", "clearx", "del", "delx"):
+            if self.live(a[0]): self.rep[a[0]] = [False, 0]
+        elif op == "await":
+            if self.live(a[0]) and S[a[0]]["h"]: self.rep[a[0]] = [False, 0]
+    except (IndexError, KeyError):
+        pass
+
+
+def _abs_apply_fault(self, op, a, head):
+    S = self.slots
+    if op == "addhf":
+        if len(a) < 2 or not self.live(a[0]) or not (0 <= a[1] < NCOROS): return False, []
+        n = len(S[a[0]]["h"])
+        threw = (head[0] == "threw") if head else self._needs_alloc(a[0], n)
+        if not threw:
+            # (the generator's prediction said "no allocation needed": a plain add)
+            S[a[0]]["h"] = S[a[0]]["h"] + [a[1]]
+            self.give(a[1])
+        # threw: the handle stays with the caller, the suspend point owes exactly what it owed before
+        return True, []
+    i, j, k = a[0], a[1], a[2] if len(a) > 2 else -1
+    if not self.live(i) or not self.live(j) or k < 0: return False, []
+    if op == "asgf" and S[i]["typed"]: return False, []
+    if i == j: return True, []
+    threw = (head[0] == "threw") if head else self.predict_merge_throws(i, j, k)
+    # storage bookkeeping (generator): the allocations before the failing one happened
+    n = len(S[i]["h"])
+    kk = k
+    for _ in S[j]["h"]:
+        if self._needs_alloc(i, n):
+            if kk == 0: break
+            kk -= 1
+            self._grow(i, n)
+        n += 1
+    if not threw:
+        S[i]["h"] = S[i]["h"] + S[j]["h"]
+        S[j]["h"] = []
+        self.rep[j] = [False, 0]
+    # threw: both objects owe exactly what they owed before
+    return True, []
+
+
+def _abs_apply_call(self, w):
+    """install_queue_and_call(fn): fn readies coroutines, optionally clears a suspend point, returns or throws - either way
+    everything is owed a resumption before the call is over (the queue is flushed and uninstalled)"""
+    if len(w) < 2: return False, []
+    S = self.slots
+    tgt = None
+    if w[1] != "-":
+        if not w[1].isdigit() or not self.live(int(w[1])): return False, []
+        tgt = int(w[1])
+    hs = [int(x) for x in w[2:]]
+    if any(not (0 <= h < NCOROS) for h in hs): return False, []
+    if self.mode == "c" and (DRIVER_ID in self.pending or (tgt is not None and DRIVER_ID in S[tgt]["h"])):
+        return False, []        # refused by the harness: the running coroutine's own handle would be resumed while it runs
+    for h in hs:
+        self.give(h)
+    out = self.pending + hs
+    self.pending = []
+    if tgt is not None:
+        out += S[tgt]["h"]
+        S[tgt]["h"] = []
+        self.rep[tgt] = [False, 0]
+    return True, out
+
+
+Abs.track_rep = _abs_track_rep
+Abs.apply_fault = _abs_apply_fault
+Abs.apply_call = _abs_apply_call
+
+
 def parse_line(line):
     """'head | sizes ; e1 e2' -> (head words, sizes list, events list)"""
     left, _, evs = line.partition(" ; ")
@@ -314,12 +456,98 @@ class SPSuite(Suite):
                 emit("addh %d %d" % (i, h))
             emit("await %d %d" % (i, m))
 
+        def fault_block():
+            """one operation under a fault plan / with a throwing callable, aimed at a growth position, and follow-up operations
+            on the same objects (retry, merge, pop, clear, destruction)"""
+            live = [i for i in range(nslots) if ab.live(i)]
+            vac = [i for i in range(nslots) if ab.vacant(i)]
+            k = rng.random()
+            if k < 0.4 and live:
+                i = rng.choice(live)
+                # bring the suspend point to a position where the next add allocates (most of the time)
+                if rng.random() < 0.8:
+                    guard = 0
+                    while not ab._needs_alloc(i, len(ab.slots[i]["h"])) and guard < 30:
+                        h = fresh()
+                        if h is None:
+                            break
+                        emit("addh %d %d" % (i, h))
+                        guard += 1
+                h = fresh()
+                if h is None:
+                    return
+                emit("addhf %d %d" % (i, h))
+                r = rng.random()
+                if r < 0.6:
+                    emit("addh %d %d" % (i, h))                       # retry
+                    if rng.random() < 0.3:
+                        h2 = fresh()
+                        if h2 is not None:
+                            emit("addhf %d %d" % (i, h2))             # no allocation needed now: a plain add
+                elif r < 0.7:
+                    emit("size %d" % i)
+                elif r < 0.8:
+                    emit("pop %d" % i)
+                elif r < 0.9:
+                    emit("%s %d" % (rng.choice(["clear", "del", "delx"]), i))
+                else:
+                    emit("await %d %d" % (i, me_id()))
+            elif k < 0.7 and len(live) >= 2:
+                i, j = rng.sample(live, 2)
+                for _ in range(rng.choice([0, 0, 1, 2, 4, 7])):
+                    h = fresh()
+                    if h is not None:
+                        emit("addh %d %d" % (j, h))
+                opn = "asgf" if (rng.random() < 0.4 and not ab.slots[i]["typed"]) else "mrgf"
+                emit("%s %d %d %d" % (opn, i, j, rng.choice([0, 0, 0, 1, 1, 2])))
+                r = rng.random()
+                if r < 0.4:
+                    emit("mrg %d %d" % (i, j))                         # retry
+                elif r < 0.55:
+                    emit("mrg %d %d" % (j, i))                         # the other way round
+                elif r < 0.7:
+                    emit("%s %d" % (rng.choice(["del", "clear"]), rng.choice([i, j])))
+                elif r < 0.8:
+                    emit("pop %d" % rng.choice([i, j]))
+                elif r < 0.9:
+                    h = fresh()
+                    if h is not None:
+                        emit("addh %d %d" % (i, h))
+            else:
+                hs = []
+                for _ in range(rng.choice([0, 1, 2, 2, 3, 4, 5, 8])):
+                    h = fresh()
+                    if h is not None:
+                        hs.append(h)
+                r = rng.random()
+                if r < 0.3:
+                    emit(" ".join(["cspx"] + [str(h) for h in hs]))
+                else:
+                    ok = [i for i in live if not (mode == "c" and DRIVER_ID in ab.slots[i]["h"])]
+                    tgt = str(rng.choice(ok)) if ok and rng.random() < 0.6 else "-"
+                    emit(" ".join(["callx" if rng.random() < 0.75 else "call", tgt] + [str(h) for h in hs]))
+                if rng.random() < 0.7:
+                    emit("act")
+                # ... and the thread goes on using suspend points
+                if vac and rng.random() < 0.6:
+                    i = rng.choice(vac)
+                    emit("ctor %d" % i)
+                    for _ in range(rng.choice([1, 3, 4, 7])):
+                        h = fresh()
+                        if h is not None:
+                            emit("addh %d %d" % (i, h))
+                    emit("%s %d" % (rng.choice(["clear", "del", "clearx"]), i))
+
         own = rng.random() < 0.4
+        faults = rng.random() < 0.5
         target = rng.randrange(nslots)           # the slot the "grow" profile feeds
         burst = 0
         for _ in range(nops):
             if own and rng.random() < 0.06:
                 own_handle_block()
+                continue
+            if faults and rng.random() < 0.08:
+                fault_block()
                 continue
             live = [i for i in range(nslots) if ab.live(i)]
             vac = [i for i in range(nslots) if ab.vacant(i)]
@@ -451,6 +679,67 @@ class SPSuite(Suite):
                         ls += ["ctorhv 1 80 9", "asg 1 0", "val 1", "val 0", "await 1 %d" % (DRIVER_ID if mode == "c" else 100)]
                     ls.append("end")
                     cases.append({"id": 0, "lines": ls})
+        return cases
+
+    def fault_cases(self):
+        """deterministic: allocation failure at every position 0..13, 24, 25, 48 of one suspend point (the inline->heap switch and
+        every doubling among them), retried and consumed each way; merges of two suspend points of many size pairs with the
+        1st / 2nd / 3rd allocation failing, then retried / discarded; callables that throw (or return) under a freshly installed
+        queue followed by further use of suspend points on the same thread; both modes"""
+        cases = []
+        for mode in ("n", "c"):
+            me = DRIVER_ID if mode == "c" else 100
+            hdr = "case 0 sp %s 3 %d" % (mode, NCOROS)
+            for size in list(range(0, 14)) + [24, 25, 48]:
+                for how in ("del", "clear", "popall", "mrg", "await", "twice"):
+                    ls = [hdr, "ctor 0"] + ["addh 0 %d" % k for k in range(size)]
+                    ls += ["addhf 0 60", "size 0", "addh 0 60", "size 0"]
+                    if how in ("del", "clear"):
+                        ls.append("%s 0" % how)
+                    elif how == "popall":
+                        ls += ["pop 0"] * (size + 2)
+                    elif how == "mrg":
+                        ls += ["ctorh 1 70", "mrg 1 0", "size 1", "del 0"]
+                    elif how == "await":
+                        ls.append("await 0 %d" % me)
+                    elif how == "twice":
+                        ls += ["addhf 0 61", "addhf 0 62", "addh 0 63", "size 0"]
+                    ls.append("end")
+                    cases.append({"id": 0, "lines": ls})
+            for ni in (0, 2, 3, 5, 6, 7, 12):
+                for nj in (1, 3, 4, 7, 13):
+                    for k in (0, 1, 2):
+                        for after in ("retry", "del", "use"):
+                            ls = [hdr, "ctor 0"] + ["addh 0 %d" % x for x in range(ni)]
+                            if ni == 5:
+                                # a heap-backed target with room: 7 handles, two popped
+                                ls += ["addh 0 5", "addh 0 6", "pop 0", "pop 0"]
+                            ls += ["ctorv 1 9"] + ["addh 1 %d" % (30 + x) for x in range(nj)]
+                            ls += ["%s 0 1 %d" % ("asgf" if (ni + nj + k) % 2 else "mrgf", k), "size 0", "size 1"]
+                            if after == "retry":
+                                ls += ["mrg 0 1", "size 0", "clear 0"]
+                            elif after == "del":
+                                ls += ["del 1", "pop 0", "del 0"]
+                            else:
+                                ls += ["addh 0 80", "addh 1 81", "mrgf 1 0 0", "mov 2 0", "await 2 %d" % me]
+                            ls.append("end")
+                            cases.append({"id": 0, "lines": ls})
+            for nh in (0, 1, 2, 5):
+                for tsz in (None, 0, 2, 5):
+                    for opn in ("callx", "call", "cspx"):
+                        if opn == "cspx" and tsz is not None:
+                            continue
+                        ls = [hdr, "ctorh 1 80", "addh 1 81", "clear 1"]
+                        if tsz is not None:
+                            ls += ["ctor 0"] + ["addh 0 %d" % (40 + x) for x in range(tsz)]
+                        hs = " ".join(str(x) for x in range(nh))
+                        if opn == "cspx":
+                            ls.append(("cspx " + hs).strip())
+                        else:
+                            ls.append(("%s %s %s" % (opn, "0" if tsz is not None else "-", hs)).strip())
+                        ls += ["act", "ctor 2"] + ["addh 2 %d" % (50 + x) for x in range(nh + 2)]
+                        ls += ["clear 2", "addh 2 60", "addh 2 61", "mov 0 2" if tsz is None else "mrg 0 2", "del 0", "act", "end"]
+                        cases.append({"id": 0, "lines": ls})
         return cases
 
     def own_handle_cases(self):
@@ -585,7 +874,7 @@ class SPSuite(Suite):
 
     def gen_cases(self, rng, tier):
         n = 1000 if tier == "quick" else 150000
-        cases = self.boundary_cases() + self.own_handle_cases() + self.value_cases() + \
+        cases = self.boundary_cases() + self.fault_cases() + self.own_handle_cases() + self.value_cases() + \
             self.exhaustive_cases(3 if tier == "quick" else 4)
         for _ in range(n):
             cases.append(self.gen_case(rng))
@@ -621,7 +910,7 @@ class SPSuite(Suite):
             if w[0] in ("val", "conv", "cconv", "ares", "await") and len(w) > 1 and w[1].isdigit() and ab.live(int(w[1])) \
                     and ab.slots[int(w[1])]["typed"]:
                 want_val = ab.slots[int(w[1])]["val"]
-            valid, must = ab.apply(w, popped=popped)
+            valid, must = ab.apply(w, popped=popped, head=head)
             if ab.outside:
                 return []       # the input left the quantifier of the property: no verdict
             got = [int(e[1:]) for e in evs if e[0] == "r"]
@@ -640,6 +929,13 @@ class SPSuite(Suite):
                 if got:
                     msgs.append("duplicate: refused operation `%s` resumed %s" % (op, got))
                 continue
+            if w[0] == "act" and len(head) > 1 and head[0] == "act":
+                want_act = "1" if hdr[3] == "c" else "0"
+                if head[1] != want_act:
+                    msgs.append("mode: coro_queue::is_active() is %s in %s after the operations so far - suspend points "
+                                "discarded from now on %s their coroutines" % (
+                                    head[1], "plain code" if hdr[3] == "n" else "a running coroutine",
+                                    "only queue (nobody flushes)" if hdr[3] == "n" else "resume at once"))
             if w[0] == "pop":
                 if popped is None:
                     if before:
@@ -711,6 +1007,23 @@ class SPSuite(Suite):
             for g in GROW_POINTS:
                 if mx >= g:
                     reached[str(g)] += 1
+        threw = {}
+        threw_at = {}
+        after_fault = 0
+        for c in cases:
+            o = outs.get(str(c["id"]), [])
+            seen = False
+            for l, opl in zip(o, c["lines"][1:]):
+                w = opl.split()
+                if seen and w[0] not in ("act", "size", "end"):
+                    after_fault += 1
+                if w[0] in ("addhf", "mrgf", "asgf", "callx", "cspx", "call"):
+                    head, sizes, evs = parse_line(l)
+                    if head[:1] == ["threw"]:
+                        threw[w[0]] = threw.get(w[0], 0) + 1
+                        seen = True
+                        if w[0] == "addhf" and w[1].isdigit() and int(w[1]) < len(sizes):
+                            threw_at[sizes[int(w[1])]] = threw_at.get(sizes[int(w[1])], 0) + 1
         own = 0
         for c in cases:
             mes = set()
@@ -721,7 +1034,9 @@ class SPSuite(Suite):
                 elif w[0] == "await" and w[2] in mes:
                     own += 1
         return {"ops": ops, "modes": modes, "awaits_by_a_coroutine_whose_handle_was_handed_in": own, "cases_reaching_size": reached, "max_size": maxsize,
-                "new[]": allocs, "delete[]": frees, "resumptions": resumes, "merges_from_heap_source": heap_merges}
+                "new[]": allocs, "delete[]": frees, "resumptions": resumes, "merges_from_heap_source": heap_merges,
+                "operations_left_by_an_exception": threw, "failed_add_by_size_of_the_suspend_point": threw_at,
+                "operations_after_a_fault_in_the_same_case": after_fault}
 
 
 class C06(Spec):
@@ -738,7 +1053,11 @@ class C06(Spec):
                   "the thread's ready queue): per-operation abstraction theorems (add, <<, move, pop, clear/destructor, co_await in both "
                   "modes), conservation of the multiset of handles over every operation list on any number of suspend points, exactly-once "
                   "at end of life, heap balance / no invalid free / no out-of-bounds write, no allocation up to 3 handles, typed value "
-                  "preserved by every operation including every way of reading it (value type with an observable moved-from state); the model is tied to the headers by running both on generated sequences and diffing every line; property "
+                  "preserved by every operation including every way of reading it (value type with an observable moved-from state); fault "
+                  "operations are part of the operation alphabet: `sp << h` and merges while the n-th new[] of the operation throws "
+                  "std::bad_alloc (strong guarantee of add, handle-level strong guarantee of merge after /repo fix 07a2414), callables "
+                  "that throw under a freshly installed queue (install_queue_and_call / create_suspend_point: queue flushed, mode restored), "
+                  "so every conservation / heap theorem covers histories with faults followed by further operations; the model is tied to the headers by running both on generated sequences and diffing every line; property "
                   "oracles run on the implementation trace under ASan/UBSan/LSan")
     level_note = ("trusted: Lean kernel (axioms propext/Classical.choice/Quot.sound at most), the hand-written model, the differential harness "
                   "(sampling), the assumption that resumed coroutines are trivial (they do not touch the suspend points or the queue while "
@@ -748,7 +1067,11 @@ class C06(Spec):
                    "awaited suspend point, in any position, is covered: c06_await_own_handle)",
                    "the handle of a coroutine that is currently running is consumed only by that coroutine's own co_await",
                    "fewer than 2^31 handles per suspend point (unsigned _count_flag)",
-                   "single thread (suspend_point is not a shared object)"]
+                   "single thread (suspend_point is not a shared object)",
+                   "allocation failure = operator new[] throwing std::bad_alloc once, at a chosen allocation of one operation (addhf / mrgf / "
+                   "asgf); the ready queue's own std::deque allocations (operator new) are not failed",
+                   "an exception thrown by a callable under install_queue_and_call / create_suspend_point is caught by the caller "
+                   "(the code that performs the operations); coroutines resumed by the flush do not throw"]
 
     def suites(self):
         return [SPSuite()]
